@@ -140,8 +140,8 @@ def arrangement_case(job):
         incs = []
         for j in range(1, ndocs):
             body = "".join(DECL[n] for n in order if assign[n] == j)
-            with open(os.path.join(d, f"part{j}.xsd"), "w") as f:
-                f.write(HEAD + body + "</xs:schema>")
+            with open(os.path.join(d, f"part{j}.xsd"), "w") as f:      # every document imports what it refers to
+                f.write(HEAD + ('<xs:import namespace="urn:V"/>' if "v:a" in body else "") + body + "</xs:schema>")
             incs.append(f'<xs:include schemaLocation="{spelling((idx + j) % 6, d, f"part{j}.xsd")}"/>')
         if idx % 2:
             incs.reverse()
